@@ -61,10 +61,15 @@ CLAIMED["C12"] = dict(
          "UnrestrictedAtomic<[u64;W]> (copy-style and loan-style stores) and a differential run of the layout functions. PORT LEVEL (Iox2/Props/C12Ports.lean, 38 theorems over all API histories of "
          "an L1 model of Writer / Reader / EntryHandleMut / EntryValueUninit / EntryHandle): at most one writer port; per key at most one write handle including outstanding loans; a second request "
          "is refused with the documented error and changes nothing; every value a reader obtains is the latest completed update of its key and reads are monotone per handle; wrong key/type refused; "
-         "reader limit. One natural statement is false and proved false (a dropped Writer keeps the writer slot while one of its handles lives); tied to /repo by a differential run of the real ports through the generic API and through the custom-key API of the language bindings.",
+         "reader limit. One natural statement is false and proved false (a dropped Writer keeps the writer slot while one of its handles lives); tied to /repo by a differential run of the real ports through the generic API and through the custom-key API of the language bindings. "
+         "COMPOSITION LEVEL (Iox2/Props/C12Compose.lean over Model/Compose.lean): the ORDER in which the three loan-style update paths of writer.rs (loan_uninit + update_with_copy / value_mut + "
+         "assume_init_and_update / the bindings' __InternalEntryValueUninit) compose capture-spare-cell, write (two words, not atomic) and publish is regenerated from /repo by the translator "
+         "extract/api_order.py (Iox2/Gen/ApiOrder.lean); for the programs built from the generated lists, interleaved step by step with any number of readers: a read is in one piece, was published, reads are monotone "
+         "(contrast theorem: with the two calls exchanged a reader returns a mixture).",
     note="Trusted: Lean kernel + 3 standard axioms; hand-written L2 model (tie = trace comparison; word-level preemption is not observable in traces, only in the theorem); sequential "
-         "consistency; port level: hand-written L1 model (tie = differential run, exhaustive 3/4-call suffixes + random, local + ipc; API calls atomic; one node).",
-    technique="Lean 4 proof (seqlock invariant over an interleaving semantics with word-granular copies) + atomic-step trace correspondence + differential layout check",
+         "consistency; port level: hand-written L1 model (tie = differential run, exhaustive 3/4-call suffixes + random, local + ipc; API calls atomic; one node); composition level: the call-order translator "
+         "(text of the function bodies, fails closed; control flow between the tracked calls is not translated), canonical values; a changed order breaks the theorem and a schedule of the model built from the changed source is the replay (not replayed on real threads).",
+    technique="Lean 4 proof (seqlock invariant over an interleaving semantics with word-granular copies; composition invariant over programs regenerated from the source) + atomic-step trace correspondence + call-order translator + differential port / layout check",
     design="DESIGN.md §5 C12")
 CLAIMED["C13"] = dict(
     level="proof",
@@ -232,11 +237,16 @@ CLAIMED["C11"] = dict(
          "client was already gone when it was sent (the unconditional routing statement is FALSE: cross-client mis-routing after slot reuse, machine-checked history replayed on the real "
          "ports = known finding); per (request, server) stream responses arrive in send order, at most once, loss only by the documented full-buffer / overflow rule; each request is handed "
          "to a server at most once, in send order; dropping a pending response / active request disconnects the stream (no stored connection carries the id, is_connected false, a later owner "
-         "of the channel only hands out responses with its own id); active-request limit, buffer size and per-connection borrow limit are never exceeded and a refused send changes nothing.",
+         "of the channel only hands out responses with its own id); active-request limit, buffer size and per-connection borrow limit are never exceeded and a refused send changes nothing. "
+         "COMPOSITION LEVEL (Iox2/Props/C11Compose.lean over Model/Compose.lean): the order in which ClientSharedState::send_request refreshes the connections, opens the response channel, counts and delivers "
+         "is regenerated from /repo (extract/api_order.py -> Iox2/Gen/ApiOrder.lean); for the program built from the generated list, interleaved step by step with a server that pops and judges "
+         "requests and with the user dropping pending responses: a server never drops a request silently while its pending response lives, a living pending response is connected, every request in flight is answerable "
+         "(contrast theorem: delivering before opening loses a request).",
     note="Trusted: Lean kernel + 3 standard axioms; hand-written L1 model (tie = differential run of the real Client/Server ports, local + ipc: exhaustive short histories, random, "
          "saturation, churn; ≈3M calls in the reference run; 15 of 18 single-branch model mutants are killed by the run); API calls atomic; persistence of a closed channel word across "
-         "re-attachment is checked by an executable predicate in the driver only (testing); chunk contents travel with the queue entry (content stability is C02's subject).",
-    technique="Lean 4 proof (inductive invariants over API histories; refutation + partial theorem for routing) + differential correspondence model vs implementation",
+         "re-attachment is checked by an executable predicate in the driver only (testing); chunk contents travel with the queue entry (content stability is C02's subject); composition level: the call-order translator (text of the function body, fails closed), one client / one server; "
+         "a changed order breaks the theorem and a schedule of the model built from the changed source is the replay.",
+    technique="Lean 4 proof (inductive invariants over API histories; refutation + partial theorem for routing; composition invariant over the program regenerated from the source) + differential correspondence model vs implementation + call-order translator",
     design="DESIGN.md §5 C11, notes/C11-design.md")
 CLAIMED["C07"] = dict(
     level="proof",
@@ -262,15 +272,16 @@ CLAIMED["C17"] = dict(
          "a connection never outlives both of its ports; every theorem of C01/C02/C08 applies to the survivors (`reach_pubsub`). The same for the event pattern (L1 event-ports model): "
          "what is left after everything was dropped is exactly the directories of the nodes whose last owner was a port; dropping a handle leaves every port alone.",
     note="Trusted: Lean kernel + 3 standard axioms; hand-written model (tie = the real ipc service: all 720 permutations of the drop order of a 6-object graph x 2 configurations + random graphs, "
-         "the set of existing resources by kind compared after every single drop; local variant for behaviour/panics); publish-subscribe (one node) and event (1..2 nodes); the other patterns' object graphs "
-         "(request-response, blackboard, wait-set guards) are not enumerated.",
+         "the set of existing resources by kind compared after every single drop; local variant for behaviour/panics); publish-subscribe (one node) and event (1..2 nodes); request-response object graphs "
+         "(ports, loaned requests, pending responses, active requests, responses dropped in random orders with the survivors used in between) are compared with the proved ReqRes model for behaviour (not for the file-system footprint, not all permutations); "
+         "blackboard object graphs and wait-set guards are not enumerated.",
     technique="Lean 4 proof (life-cycle view invariant on top of the C02 invariant; refutation by a concrete history) + differential correspondence over all drop-order permutations",
     design="DESIGN.md §5 C17")
 NOT_YET = {}
 
 ENGINE_OF = {"C03": "lean+steptrace", "C04": "lean+steptrace+lifecycle+seqdiff", "C05": "lean+steptrace+seqdiff", "C07": "lean+lifecycle", "C09": "lean+steptrace+seqdiff",
-             "C10": "lean+steptrace", "C12": "lean+steptrace+seqdiff", "C13": "lean+steptrace", "C14": "lean+translator+seqdiff+steptrace", "C15": "lean+seqdiff+steptrace",
-             "C06": "lean+svclife", "C18": "lean+translator+seqdiff"}
+             "C10": "lean+steptrace", "C12": "lean+steptrace+translator+seqdiff", "C13": "lean+steptrace", "C14": "lean+translator+seqdiff+steptrace", "C15": "lean+seqdiff+steptrace",
+             "C06": "lean+svclife", "C18": "lean+translator+seqdiff", "C11": "lean+translator+seqdiff"}
 
 
 def main():
@@ -308,7 +319,7 @@ def main():
                  dict(name="svclife", path="/verif/harness/src/svc", serves_properties=["C06"],
                       kind_free_text="service create/open/drop histories with several nodes, requirement matrices, strace step lists, multi-process stress"),
                  dict(name="translators", path="/verif/extract", serves_properties=["C14", "C18"] + sorted(ENGINE_OF),
-                      kind_free_text="dropin_gen.py (instrumentation), reloc_layout.py (C14 field table -> Iox2/Gen/RelocLayout.lean), ffi_errors.py (C18 error tables -> Iox2/Gen/FfiErrors.lean); all fail closed")],
+                      kind_free_text="dropin_gen.py (instrumentation), reloc_layout.py (C14 field table -> Iox2/Gen/RelocLayout.lean), ffi_errors.py (C18 error tables -> Iox2/Gen/FfiErrors.lean), api_order.py (C11 / C12: order of the tracked lower-layer calls in the port functions -> Iox2/Gen/ApiOrder.lean); all fail closed")],
         checks=checks,
         notes="fix: commits in /repo (genuine defects found by these checks) are listed in known_findings.json with status fixed.",
         not_applicable=na)
